@@ -60,7 +60,7 @@ def config(case):
         neg = int(rng.integers(1, 8))
     cfg = {"kind": kind, "nv": nv, "nh": int(rng.integers(1, 4)), "na": int(rng.integers(1, 3)), "N": N, "pos": pos,
            "neg": neg, "k": int(rng.integers(0, 4)), "lr": float(rng.choice([1e-3, 0.1, 1.0, 7.5])),
-           "epochs": int(rng.integers(1, 5)), "sched": bool(rng.random() < 0.5), "step_size": int(rng.integers(1, 3)),
+           "epochs": int(rng.integers(1, 5)), "start": int(rng.choice([1, 1, 2, 4])), "sched": bool(rng.random() < 0.5), "step_size": int(rng.integers(1, 3)),
            "gamma": float(rng.choice([0.5, 0.1])), "momentum0": bool(rng.random() < 0.5)}
     if kind == "mixed" and cfg["lr"] > 1:
         cfg["lr"] = 1.0  # large steps push mixed states out of the well-conditioned range quickly
@@ -116,8 +116,11 @@ def one_run(case, ctx, cfg, st, kind, nv, rows, bases, data, shared, am, ph, lab
         kw["optimizer_args"] = shared["optimizer_args"]
     tags = {"state": kind, "run": label}
     try:
-        ctx.lib("fit", st.fit, data, epochs=cfg["epochs"], pos_batch_size=cfg["pos"], neg_batch_size=cfg["neg"],
-                k=cfg["k"], lr=cfg["lr"], callbacks=[rec], optimizer=trainrec.make_recording_sgd(log, st), tags=tags, **kw)
+        # cfg["epochs"] is the NUMBER of epochs trained; training may resume at a later epoch index (starting_epoch)
+        ctx.lib("fit", st.fit, data, epochs=cfg["start"] + cfg["epochs"] - 1, starting_epoch=cfg["start"], pos_batch_size=cfg["pos"],
+                neg_batch_size=cfg["neg"], k=cfg["k"], lr=cfg["lr"], callbacks=[rec], optimizer=trainrec.make_recording_sgd(log, st),
+                tags=tags, **kw)
+        ctx.seen("starting_epochs", cfg["start"])
     finally:
         undo()
     wit = {"config": cfg}
